@@ -103,6 +103,13 @@ def e1_configs(tier):
     if tier == "thorough":
         cfgs.append(W(kind="generic", depth=9, W=2, apex=(7, 5, 9)))
         cfgs.append(W(kind="generic", depth=10, W=2, apex=(8, 5, 9), max_deviations=4))
+    # a WIDE pyramid (16 384 tiles ready before any worker exists; 21 845 callbacks): the default schedule only,
+    # cut after 40 000 steps in the quick tier (the whole seeding phase and the first few hundred callbacks)
+    if tier == "quick":
+        cfgs.append(W(kind="generic", depth=8, W=2, max_deviations=0, horizon_steps=40000))
+    else:
+        cfgs.append(W(kind="generic", depth=8, W=2, max_deviations=0))
+        cfgs.append(W(kind="generic", depth=9, W=3, max_deviations=0, horizon_steps=150000))
     if tier == "quick":
         # the complete depth-2 pyramid (21 callbacks; 47 000 states unbounded, thorough tier) within a deviation bound
         cfgs.append(W(kind="generic", depth=2, W=2, with_pause=True, max_deviations=3))
@@ -253,6 +260,18 @@ def e2_cases(tier):
         for a in all_apexes(2):
             if a != (0, 0, 0):
                 cases.append(("filtered", 2, f, a, None, tier == "thorough"))
+    # filters that are NOT monotone along the path to the apex: an ancestor of the apex is rejected although the
+    # apex and its descendants would be accepted (the full pyramid then has nothing below the apex)
+    for f in family51()[:: (1 if tier == "thorough" else 3)]:
+        fl = [tuple(a) for a in f]
+        for a in fl:
+            if a[0] == 2 and (1, a[1] // 2, a[2] // 2) in fl:
+                cases.append(("filtered", 2, [q for q in fl if q != (1, a[1] // 2, a[2] // 2)], a, None, True))
+                break
+    chain = [(1, 0, 0), (2, 1, 1), (3, 2, 2), (3, 3, 3), (2, 0, 1), (3, 0, 2)]
+    for drop, apex in (((1, 0, 0), (2, 1, 1)), ((2, 1, 1), (3, 2, 2)), ((1, 0, 0), (3, 3, 3)), ((2, 0, 1), (3, 0, 2))):
+        for cs in (None, "planetary"):
+            cases.append(("filtered", 3, [q for q in chain if q != drop], apex, cs, True))
     if tier == "thorough":
         # depth 3: all filters supported inside one level-1 quadrant (see also e2_extra_cases)
         q = (1, 1, 0)
